@@ -47,7 +47,7 @@ func (c *Ctx) cryptoChainOf(fn *ssa.Function, op string) *cryptoChain {
 		return cc
 	}
 	cc.opCall = calls[0]
-	prim := cc.opCall.Call.Value
+	prim := c.throughMemo(fn, cc.opCall.Call.Value, cc.opCall.Block())
 	// prim <- extract#0 daead.New(kh) ; kh <- extract#0 keysetHandleFromRawKey(keyParam)
 	nc, ok := defAt(prim, cc.opCall.Block()).(*ssa.Extract)
 	if !ok {
